@@ -301,7 +301,11 @@ LITERALS_Q = dict(scenario='literals', args=dict(policy=stmt_profile([['Decl:Var
 LITERAL_KEYS_Q = dict(scenario='literals', args=dict(policy=stmt_profile([['Decl:Var', 'Expr'], ['Expr']], [['Object', 'Lit', 'Ident'], ['Lit', 'Ident', 'Object'], ['Lit', 'Ident']], bin_ops=['Add'], names=['foo'], props=['k'], max_args=(0, 0, 0), params=(0,), items=(1, 2), op_budget=2, all_present=True, spread=False),
                                                      free_strings=(0, 300), enabled=(True,), kinds=('Module', 'Script'), module_import=True, str_keys=True),
                       label='object literals with quoted (string) keys and modules starting with an import declaration: strings of symbolic length 0..300 in non-expression positions next to string-literal values')
-PLANS['C14'] = {'quick': [LITERALS_Q, LITERAL_KEYS_Q], 'thorough': [LITERALS_Q, LITERAL_KEYS_Q]}
+# string literals as default values inside destructuring patterns of declarations
+LITERAL_PATTERNS_Q = dict(scenario='literals', args=dict(policy=stmt_profile([['Decl:Var', 'Block'], ['Decl:Var', 'Expr'], ['Expr']], [['Lit', 'Ident'], ['Lit', 'Ident']], bin_ops=['Add'], names=['foo'], props=['k'], max_args=(0, 0), params=(0,), items=(1,), op_budget=1, all_present=True, spread=False),
+                                                         free_strings=(0, 300), enabled=(True,), kinds=('Script',), pat_full=True),
+                          label='declarations with array / object patterns whose defaults are string literals of symbolic length (`const { k = "…" } = x`, `let [a = "…"] = y`)')
+PLANS['C14'] = {'quick': [LITERALS_Q, LITERAL_KEYS_Q, LITERAL_PATTERNS_Q], 'thorough': [LITERALS_Q, LITERAL_KEYS_Q, LITERAL_PATTERNS_Q]}
 
 
 # source-map discovery
